@@ -1,7 +1,7 @@
 #!/bin/sh
 # Re-verify every seeded change against the current /repo: apply, run the property's quick check, expect exit 1, revert.
 cd "$(dirname "$0")/.."
-for d in seeded/C*; do
+for d in /verif/seeded/C*; do
   P=$(basename $d)
   if ! git -C /repo apply --check $d/patch.diff 2>/dev/null; then echo "$P: patch no longer applies to /repo HEAD"; continue; fi
   git -C /repo apply $d/patch.diff
